@@ -261,6 +261,18 @@ int main(int argc, char** argv) {
     char* w[12]; int nw = 0; char* t; long r = 0; uv_fs_t req;
     for (t = strtok(line, " \t\r\n"); t && nw < 12; t = strtok(NULL, " \t\r\n")) w[nw++] = t;
     if (nw == 0) continue;
+    /* names the line protocol cannot carry literally: %XX = one byte, %rNNNc = NNN times the character c */
+    { static char dec[12][1200]; int q;
+      for (q = 1; q < nw; q++) if (strchr(w[q], '%')) {
+        const char* a = w[q]; size_t o = 0;
+        while (*a && o < sizeof dec[q] - 300) {
+          if (a[0] == '%' && a[1] == 'r' && strlen(a) >= 6) { int k = (a[2]-'0')*100 + (a[3]-'0')*10 + (a[4]-'0'); while (k-- > 0 && o < sizeof dec[q] - 2) dec[q][o++] = a[5]; a += 6; }
+          else if (a[0] == '%' && a[1] && a[2]) { char h[3] = { a[1], a[2], 0 }; dec[q][o++] = (char) strtol(h, NULL, 16); a += 3; }
+          else dec[q][o++] = *a++;
+        }
+        dec[q][o] = 0; w[q] = dec[q];
+      }
+    }
     opno++;
     memset(&req, 0, sizeof req);
 #define IS(name, n) (!strcmp(w[0], name) && nw == (n))
